@@ -29,12 +29,14 @@ def check(ctx, fx, rule="S2"):
         if not tag.endswith("true"):
             continue        # the validation-only instantiation drops exits by `if constexpr`
         mf = MustFlow(f)
+        from rules import common as C
+        named = C.single_inits(f)          # a bool that is only ever its initialiser names a condition, it is not a state flag
         bools = {}
         for b in f["blocks"]:
             for s in b["stmts"]:
                 if s["k"] == "decl":
                     for v in s["vars"]:
-                        if (v.get("ty") or "").replace("const ", "") == "bool" and v["name"] not in IGNORE:
+                        if (v.get("ty") or "").replace("const ", "") == "bool" and v["name"] not in IGNORE and v["id"] not in named:
                             bools["L#%s:%s" % (v["id"], v["name"])] = v["name"]
         tab = {}
         for st, reg in M.region.items():
